@@ -469,10 +469,13 @@ def upPrefix (nsFullName : Str) : Str := repeatStr "../".toList (countChar '.' n
 def typeHref (ns : List Str) (t : CType) : Str := upPrefix (joinWith '.' ns) ++ urlFromType t
 def typeHrefBeforeFix (_ns : List Str) (t : CType) : Str := urlFromTypeBeforeFix t
 
-/-- The back link of a type page (after the fix): `index.html#<tag id>`. -/
+/-- The id of a namespace's own entry (`namespace_info.j2`): `full_name.replace(".", "_")`. -/
+def nsId (ns : List Str) : Str := replaceChar '.' ['_'] (joinWith '.' ns)
+
 def indexPage : Str := "index.html".toList
 
-def backHref (t : CType) : Str := indexPage ++ '#' :: tagId t
+/-- The back link of a type page (after the fix): `index.html#` + the id of the type's namespace entry. -/
+def backHref (t : CType) : Str := indexPage ++ '#' :: replaceChar '.' ['_'] t.fullNamespace
 
 def lowerFirst : Str → Str
   | [] => []
@@ -542,6 +545,15 @@ def entryIdsL : List NsTree → List Str
 end
 
 mutual
+/-- ids of the namespace entries on the page of a namespace: its own, then those of the nested namespaces. -/
+def nsEntryIds : NsTree → List Str
+  | .node name _ children => nsId name :: nsEntryIdsL children
+def nsEntryIdsL : List NsTree → List Str
+  | [] => []
+  | n :: l => nsEntryIds n ++ nsEntryIdsL l
+end
+
+mutual
 def allTypes : NsTree → List CType
   | .node _ types children => types ++ allTypesL children
 def allTypesL : List NsTree → List CType
@@ -560,14 +572,14 @@ inductive HPart
 * a literal `https://…` or `javascript:…` — not a reference to a type;
 * `#` + namespace id / `#` + `tag_id` — same-page links of the side bar;
 * `up` + `url_from_type` — `typeHref`;
-* `index.html#` + `tag_id` of the page's own type — `backHref`. -/
+* `index.html#` + the id of the namespace entry of the page's own type — `backHref`. -/
 def hrefFormOk (ps : List HPart) : Bool :=
   match ps with
   | [.lit s] => "https://".toList.isPrefixOf s.toList || "javascript:".toList.isPrefixOf s.toList
   | [.lit "#", .ex "t.full_name.replace(\".\",\"_\")"] => true
   | [.lit "#", .ex "type|tag_id"] => true
   | [.ex "up", .ex "t|url_from_type"] => true
-  | [.lit "index.html#", .ex "T|tag_id"] => true
+  | [.lit "index.html#", .ex "T.full_namespace.replace(\".\",\"_\")"] => true
   | _ => false
 
 /-- The link prefix parameter is only ever the expression of `upPrefix` (at the root call) or the caller's own
